@@ -92,7 +92,11 @@ static void g_reclaim(guard_t* g) {
 }
 #define G_acquire_if_equal(g, cell, e, mo) g_acquire_if_equal(&(g), &(cell), (e), (mo))
 #define G_acquire(g, cell, mo) g_acquire(&(g), &(cell), (mo))
-#define G_reset(g) ((g) = 0)
+/* guard_ptr::reset: the protection is dropped.  Ghost: the (non-null) values this operation has released since its latest find - a node it no longer
+   protects may be reclaimed and its address recycled by other threads at any time (ABA) */
+mptr mon_reset_vals[4]; unsigned mon_reset_n;
+static void mon_note_reset(mptr v) { if (v != 0 && mon_reset_n < 4) mon_reset_vals[mon_reset_n++] = v; }
+#define G_reset(g) (mon_note_reset(g), (g) = 0)
 #define G_reclaim(g) g_reclaim(&(g))
 /* guard_ptr(raw pointer): no validation is possible, so it is only legitimate while p is PINNED: p is null, or this call's own
  * not yet freed new node, or the frozen successor (c->next carries the delete mark, so it can never change) of a node c that this
@@ -235,6 +239,10 @@ static void mon_cas(void* addr, uint64_t e, uint64_t d, _Bool ok, int o) {
     _Bool good = (mptr*)addr == mon_val_cell && mon_val_ok && e == mon_val_value && MP_mark(e) == 0 && d == W(IN) && g_alloc && !g_freed && !g_published
               && pool[IN].next == e && pool[IN].data.value.first == ins_key;
     XV_OBL("hmm.insert.commit", good);
+    /* ... and that expected successor is still protected by this operation: a node whose guard was reset before the CAS can be unlinked, reclaimed and its
+       address re-used for another node linked at the same place, and the CAS would succeed on the recycled address (ABA: a key inserted twice, a lost node) */
+    { _Bool released = 0; for (unsigned i = 0; i < 4; i++) if (i < mon_reset_n && e != 0 && mon_reset_vals[i] == e) released = 1;
+      XV_OBL("hmm.insert.expected_protected", !released); }
   }
   if (mon_mode == MON_ERASE_KEY || mon_mode == MON_ERASE_IT) {
     _Bool on_curnext = is_node(er_cur) && (mptr*)addr == &pool[idx_of(er_cur)].next;
@@ -295,7 +303,7 @@ static _Bool hmm_find_abs(struct hmm* self, hash_t h, kkey_t k, size_t b, struct
   info->prev = nondet_cell(); info->save = nondet_word(); info->cur = nondet_word(); info->next = nondet_word();
   XV_ASSUME(fi_valid(info, b) && guard_valid(info->cur) && MP_mark(info->next) == 0);
   if (info->cur == 0) XV_ASSUME(info->next == 0);
-  mon_val_cell = info->prev; mon_val_value = info->cur; mon_val_ok = 1;
+  mon_val_cell = info->prev; mon_val_value = info->cur; mon_val_ok = 1; mon_reset_n = 0;
   abs_find_cur = info->cur; abs_find_next = info->next; abs_find_prev = info->prev;
   if (mon_mode == MON_ERASE_KEY && er_phase == 0) { er_cur = info->cur; er_prev = info->prev; }
   _Bool r = nondet_bool();
